@@ -8,6 +8,7 @@ import (
 	"os"
 	"os/exec"
 	"path/filepath"
+	"strconv"
 	"strings"
 	"time"
 
@@ -231,6 +232,40 @@ func (cr *cliRunner) runTreeRemote(id int64, tl *treeLine, root string, maps []M
 		_ = l
 		_ = r
 		// (sum-diff maps the item "src.item1" to the destination directory "src/item1": not comparable here)
+	}
+	// file names that need escaping in a query string
+	if !tl.S1.Absent {
+		for _, name := range []string{"c++.wsp", "a&b=c.wsp", "sp ace%41#?.wsp", "pl+us dir/x+y.wsp"} {
+			name := name
+			rel := filepath.Join("src", "item1", name)
+			odd := func() {
+				reset()
+				os.MkdirAll(filepath.Dir(filepath.Join(e.root, rel)), 0755)
+				b, _ := ioutil.ReadFile(e.path("s1"))
+				ioutil.WriteFile(filepath.Join(e.root, rel), b, 0644)
+			}
+			row0 := &cmdRow{}
+			for _, what := range []string{"view", "view-raw", "diff"} {
+				what := what
+				cr.note(0, "oddname")
+				l, r := cr.runBoth(e, srv, odd, what, func(base string) (cmd.Command, *string) {
+					switch what {
+					case "view":
+						c := &cmd.ViewCommand{SrcBase: base, SrcRelPath: rel, ArchiveID: cmd.ArchiveIDAll, ShowHeader: true}
+						return c, &c.TextOut
+					case "view-raw":
+						c := &cmd.ViewRawCommand{SrcBase: base, SrcRelPath: rel, ArchiveID: cmd.ArchiveIDAll, ShowHeader: true}
+						return c, &c.TextOut
+					}
+					c := &cmd.DiffCommand{SrcBase: base, SrcRelPath: rel, DestBase: e.root, DestRelPath: "src/item1/s1.wsp", ArchiveID: cmd.ArchiveIDAll}
+					return c, &c.TextOut
+				}, "")
+				cr.stats["oddname"] += 2
+				if d := sameObs(l, r); d != "" {
+					cr.viol(what+" of a file named "+strconv.Quote(name)+": URL and directory disagree", d, tl, row0, mp, "")
+				}
+			}
+		}
 	}
 	// files, patterns and items that do not exist / are malformed
 	row := &cmdRow{}
